@@ -441,10 +441,12 @@ fn eval_rt(ty: &str, bytes: &[u8], pat: &str, idx: u64) -> ItemOut {
                 }
             }
             // (2) through the client: the written blob inside an identities answer
-            let resp = identities_answer(&[buf.to_vec()]);
+            let mut second = Buffer::default();
+            test_key().write(&mut second);
+            let resp = identities_answer(&[buf.to_vec(), second.to_vec()]);
             match AgentClient::connect(Stub { resp, ..Default::default() }).request_identities::<PublicKey>() {
-                Ok(keys) if keys == vec![pk] => routes.push("identities-answer:ok"),
-                other => vs.push(rt_violation(ty, "identities-answer", format!("request_identities on an answer holding write(k) returned {:?}", other.map_err(|e| e.to_string())), bytes, pat, idx)),
+                Ok(keys) if keys == vec![pk, test_key()] => routes.push("identities-answer:ok"),
+                other => vs.push(rt_violation(ty, "identities-answer", format!("request_identities on an answer holding [write(k), write(k2)] returned {:?}", other.map_err(|e| e.to_string())), bytes, pat, idx)),
             }
             // (3) the blob the client sends in a remove-identity request reads back
             let stub = Stub::default();
@@ -526,6 +528,9 @@ fn rt_at(i: u64) -> (&'static str, Vec<u8>, String) {
 // ---------------------------------------------------------------------------------------------
 
 fn crash_violation(wit: Value, what: String, crash: Crash, tail: &str, cost: u64) -> Violation {
+    if let Some(pos) = tail.find("MACHINERY-ERROR") {
+        mcx::report::machinery(&format!("worker failed on {what}: {}", tail[pos..].lines().next().unwrap_or("")));
+    }
     match crash {
         Crash::Hang => Violation::new("C27/hang", format!("{what}: no result within the watchdog time"), wit).cost(cost),
         Crash::Abort { signal, code } => {
